@@ -45,7 +45,7 @@ func c05Resources(cpu, mem float64, offered []mesos.Value_Range) Resources {
 
 // An offer that Resources.Satisfy accepts contains every static port the task class asks for and enough
 // further ports for its inbound channels (cpu and memory fixed here, see HarnessResourcesScalars).
-//verif:entry HarnessResourcesPorts unwind=10 reach=accepted,refused
+//verif:entry HarnessResourcesPorts unwind=10 conform=12 reach=accepted,refused
 func HarnessResourcesPorts() {
 	offered := c05Ports("offer.ports", vrt.IntRange("offer.nranges", 1, 2))
 	if len(offered) == 2 {
@@ -91,7 +91,7 @@ func HarnessResourcesPorts() {
 
 // cpu and memory: an accepted offer covers what is asked (offered quantities are whole numbers, so that
 // mesos-go's 3-decimal fixed-point round trip is the identity: that is what c05ScalarAdd stands for).
-//verif:entry HarnessResourcesScalars unwind=10 reach=accepted,refused replace=(*github.com/mesos/mesos-go/api/v1/lib.Value_Scalar).Add=>c05ScalarAdd solverms=60000
+//verif:entry HarnessResourcesScalars unwind=10 conform=12 reach=accepted,refused replace=(*github.com/mesos/mesos-go/api/v1/lib.Value_Scalar).Add=>c05ScalarAdd solverms=60000
 func HarnessResourcesScalars() {
 	cpu, mem := vrt.Float64("offer.cpu"), float64(vrt.IntRange("offer.mem", 0, 1048576))
 	vrt.Assume(cpu >= 0 && cpu <= 1024)
